@@ -169,6 +169,84 @@ def polygon_is_simple(poly):
     return area2(poly) != 0
 
 
+def _ang_key(d):
+    """Sort key equivalent to the angle of direction d in [0, 2pi) (exact)."""
+    x, y = d
+    half = 0 if (y > 0 or (y == 0 and x > 0)) else 1
+    return half, x, y
+
+
+def _ang_cmp(d1, d2):
+    h1, h2 = _ang_key(d1)[0], _ang_key(d2)[0]
+    if h1 != h2:
+        return -1 if h1 < h2 else 1
+    c = d1[0] * d2[1] - d1[1] * d2[0]
+    return -1 if c > 0 else (1 if c < 0 else 0)
+
+
+def passes_interleave(pa, pb):
+    """pa = (a1, a2), pb = (b1, b2): direction pairs of two passes of a curve through the
+    same point.  True iff the passes cross there (directions alternate around the point);
+    'overlap' if two directions coincide."""
+    import functools
+
+    items = [(pa[0], 0), (pa[1], 0), (pb[0], 1), (pb[1], 1)]
+    for i in range(4):
+        for j in range(i + 1, 4):
+            if _ang_cmp(items[i][0], items[j][0]) == 0:
+                return "overlap"
+    items.sort(key=functools.cmp_to_key(lambda u, v: _ang_cmp(u[0], v[0])))
+    owners = [o for _, o in items]
+    return owners in ([0, 1, 0, 1], [1, 0, 1, 0])
+
+
+def polygon_self_crossing(poly):
+    """None if the closed polygon does not cross itself (isolated self-contacts, where the
+    curve touches itself without crossing, are allowed), else a description."""
+    n = len(poly)
+    if n < 3:
+        return "fewer than 3 vertices"
+    for i in range(n):
+        if poly[i] == poly[(i + 1) % n]:
+            return "zero-length edge at %s" % (poly[i],)
+    contacts = set()
+    for i in range(n):
+        a, b = poly[i], poly[(i + 1) % n]
+        for j in range(i + 1, n):
+            c, d = poly[j], poly[(j + 1) % n]
+            r = seg_seg(a, b, c, d)
+            if r is None:
+                continue
+            if r[0] == "overlap":
+                return "edges %d and %d overlap" % (i, j)
+            adjacent = j == i + 1 or (i == 0 and j == n - 1)
+            if adjacent:
+                common = b if j == i + 1 else a
+                if r[3] == common:
+                    continue
+            if 0 < r[1] < 1 and 0 < r[2] < 1:
+                return "edges %d and %d cross at (%s, %s)" % (i, j, float(r[3][0]), float(r[3][1]))
+            contacts.add(r[3])
+    for p in contacts:
+        passes = []
+        for k in range(n):
+            if poly[k] == p:
+                q0, q1 = poly[k - 1], poly[(k + 1) % n]
+                passes.append(((q0[0] - p[0], q0[1] - p[1]), (q1[0] - p[0], q1[1] - p[1])))
+            else:
+                a, b = poly[k], poly[(k + 1) % n]
+                if b != p and on_segment(p, a, b):
+                    passes.append(((a[0] - p[0], a[1] - p[1]), (b[0] - p[0], b[1] - p[1])))
+        for i in range(len(passes)):
+            for j in range(i + 1, len(passes)):
+                r = passes_interleave(passes[i], passes[j])
+                if r == "overlap":
+                    return "boundary runs twice along the same ray at (%s, %s)" % (float(p[0]), float(p[1]))
+                if r:
+                    return "boundary crosses itself at (%s, %s)" % (float(p[0]), float(p[1]))
+    return None
+
+
 def canon_cycle(verts):
     """Canonical form of a closed polygonal cycle: no repeated / collinear vertices,
     rotated to start at the lexicographically smallest vertex; orientation kept."""
